@@ -3,6 +3,8 @@
 (* A document is an arrangement of top-level blocks                                         *)
 (*   <<"ref", label>>   a paragraph containing the reference [^label]                       *)
 (*   <<"def", label>>   the definition  [^label]: text                                      *)
+(*   <<"hr", "-">>      a thematic break written by the author                              *)
+(*   <<"head", label>>  a heading whose title (hence docutils name) is the label            *)
 (* labels are strings; the numeric ones ("1", "2", ...) are manually numbered.              *)
 (* M: the render actions (render_footnote_ref / render_footnote_reference with its          *)
 (* duplicate check against document.nameids) and then the transform chain in priority       *)
@@ -10,13 +12,14 @@
 (* UnreferencedFootnotesDetector, CollectFootnotes.  S: the declarative clauses below.      *)
 EXTENDS Naturals, Sequences, FiniteSets, TLC, Json
 
-CONSTANTS Labels, MaxEv
+CONSTANTS Labels, MaxEv, WithHr, WithHead
 
 NumOf(l) == CASE l = "1" -> 1 [] l = "2" -> 2 [] l = "3" -> 3 [] l = "4" -> 4 [] l = "5" -> 5
               [] l = "6" -> 6 [] l = "7" -> 7 [] l = "8" -> 8 [] l = "9" -> 9 [] l = "10" -> 10
               [] l = "11" -> 11 [] l = "12" -> 12 [] OTHER -> 0
 IsNum(l) == NumOf(l) > 0
-EvVocab == {<<k, l>> : k \in {"ref", "def"}, l \in Labels}
+EvVocab == {<<k, l>> : k \in {"ref", "def"}, l \in Labels} \cup (IF WithHr THEN {<<"hr", "-">>} ELSE {})
+           \cup (IF WithHead THEN {<<"head", l>> : l \in {x \in Labels : ~IsNum(x)}} ELSE {})
 Arrangements == UNION {[1..n -> EvVocab] : n \in 0..MaxEv}
 
 VARIABLES evs, sort, trans,     \* the input: arrangement, footnote_sort, footnote_transition
@@ -52,6 +55,9 @@ RenderDef == /\ pc = "render" /\ pos <= Len(evs) /\ evs[pos][1] = "def"
                      /\ UNCHANGED dupw
              /\ pos' = pos + 1
              /\ UNCHANGED <<evs, sort, trans, pc, refs, unrefw, final>>
+RenderOther == /\ pc = "render" /\ pos <= Len(evs) /\ evs[pos][1] \in {"hr", "head"}
+               /\ pos' = pos + 1            \* a heading with the same name is no footnote: the registries are untouched
+               /\ UNCHANGED <<evs, sort, trans, pc, defs, refs, dupw, autos, num, unrefw, final>>
 RenderEnd == /\ pc = "render" /\ pos > Len(evs) /\ pc' = "sort"
              /\ UNCHANGED <<evs, sort, trans, pos, defs, refs, dupw, autos, num, unrefw, final>>
 
@@ -89,6 +95,8 @@ DetectStep == /\ pc = "detect"
 (* ---- CollectFootnotes ---- *)
 Original == [k \in 1..Len(evs) |->
                IF evs[k][1] = "ref" THEN <<"p", k>>
+               ELSE IF evs[k][1] = "hr" THEN <<"h", k>>
+               ELSE IF evs[k][1] = "head" THEN <<"s", k>>
                ELSE IF k \in dupw THEN <<"w", k>>
                ELSE <<"f", CHOOSE d \in 1..Len(defs) : defs[d].at = k>>]
 RECURSIVE OrderByNum(_)
@@ -99,12 +107,13 @@ CollectStep == /\ pc = "collect"
                            ELSE LET others == SelectSeq(Original, LAMBDA it : it[1] # "f")
                                     fns == OrderByNum(1..Len(defs))
                                 IN others
-                                   \o (IF trans /\ defs # <<>> /\ others # <<>> THEN <<<<"t">>>> ELSE <<>>)
+                                   \o (IF trans /\ defs # <<>> /\ others # <<>> /\ others[Len(others)][1] # "h"
+                                       THEN <<<<"t">>>> ELSE <<>>)                   \* never next to the author's own break
                                    \o [k \in 1..Len(fns) |-> <<"f", fns[k]>>]
                /\ pc' = "done"
                /\ UNCHANGED <<evs, sort, trans, pos, defs, refs, dupw, autos, num, unrefw>>
 
-Next == RenderRef \/ RenderDef \/ RenderEnd \/ SortStep \/ NumberStep \/ DetectStep \/ CollectStep
+Next == RenderRef \/ RenderDef \/ RenderOther \/ RenderEnd \/ SortStep \/ NumberStep \/ DetectStep \/ CollectStep
 Spec == Init /\ [][Next]_vars /\ WF_vars(Next)
 Done == pc = "done"
 
@@ -114,7 +123,7 @@ RefView == [r \in 1..Len(refs) |->
 
 (************************************ S ************************************************)
 (* declaratively, from the arrangement alone *)
-SDefAt == {k \in 1..Len(evs) : evs[k][1] = "def" /\ \A j \in 1..(k - 1) : ~(evs[j][1] = "def" /\ evs[j][2] = evs[k][2])}
+SDefAt == {k \in 1..Len(evs) : evs[k][1] = "def" /\ \A j \in 1..(k - 1) : ~(evs[j][1] = "def" /\ evs[j][2] = evs[k][2])}   \* (a heading is no definition)
 SDupAt == {k \in 1..Len(evs) : evs[k][1] = "def"} \ SDefAt
 SRefAt(l) == {k \in 1..Len(evs) : evs[k] = <<"ref", l>>}
 KeepFirst == Done => /\ {defs[d].at : d \in 1..Len(defs)} = SDefAt     \* first definition kept, no text lost
@@ -142,10 +151,11 @@ Collected == (Done /\ sort) =>
   IN /\ \A k \in (n - nf + 1)..n : final[k][1] = "f"                      \* all definitions at the end
      /\ \A k \in 1..(n - nf) : final[k][1] # "f"
      /\ \A j, k \in (n - nf + 1)..n : j < k => num[final[j][2]] < num[final[k][2]]   \* ascending labels
-     /\ Cardinality({k \in 1..n : final[k] = <<"t">>})                    \* exactly one transition iff configured
-          = (IF trans /\ nf > 0 /\ \E k \in 1..n : final[k][1] \in {"p", "w"} THEN 1 ELSE 0)   \* and something precedes
-     /\ (\E k \in 1..n : final[k] = <<"t">>) => final[n - nf] = <<"t">>         \* directly before the footnotes
-     /\ SelectSeq(final, LAMBDA it : it[1] \in {"p", "w"}) = SelectSeq(Original, LAMBDA it : it[1] # "f")
+     /\ (trans /\ nf > 0 /\ n - nf > 0) => final[n - nf][1] \in {"t", "h"}          \* preceded by one transition when configured
+     /\ Cardinality({k \in 1..n : final[k] = <<"t">>}) <= 1
+     /\ (\E k \in 1..n : final[k] = <<"t">>) => (trans /\ final[n - nf] = <<"t">>)   \* only there, only when configured
+     /\ \A k \in 1..(n - 1) : ~(final[k][1] \in {"t", "h"} /\ final[k + 1][1] \in {"t", "h"} /\ final[k + 1] = <<"t">>)   \* never adjacent to another
+     /\ SelectSeq(final, LAMBDA it : it[1] \in {"p", "w", "h", "s"}) = SelectSeq(Original, LAMBDA it : it[1] # "f")
 InPlace == (Done /\ ~sort) => final = Original
 Terminates == <>Done
 
